@@ -1,6 +1,8 @@
 package sqlgen
 
 import (
+	"reflect"
+
 	"github.com/ajitpratap0/GoSQLX/pkg/sql/ast"
 )
 
@@ -53,8 +55,15 @@ func (g *G) references() ([]Tok, *ast.ReferenceDefinition) {
 	if tb.src != tb.name && !g.F.QuotedDDLNames {
 		tb = bare("t2")
 	}
+	if g.F.DDLExtras && g.chance(25, "refschema") {
+		sc := bare("s1")
+		if g.F.QuotedDDLNames {
+			sc = g.pick(schemaP, "refschemaname")
+		}
+		tb = ident{sc.src + " . " + tb.src, sc.name + "." + tb.name}
+	}
 	r := &ast.ReferenceDefinition{Table: tb.name}
-	t := cat(g.kw("REFERENCES"), sym(tb.src))
+	t := cat(g.kw("REFERENCES"), nameToks(tb))
 	if g.chance(80, "refcols") {
 		ct, cn := g.colList(1+g.intn(2, "nrefcols"), "refcol")
 		t = cat(t, ct)
@@ -216,6 +225,12 @@ func (g *G) CreateIndex() ([]Tok, *ast.CreateIndexStatement) {
 		if g.F.IndexNulls && g.chance(20, "ixnulls") {
 			it = cat(it, g.kw("NULLS", "LAST"))
 			ic.NullsLast = true
+		} else if g.F.DDLExtras && g.chance(15, "ixnullsfirst") {
+			// IndexColumn.NullsFirst exists only on trees that record the modifier
+			if f := reflect.ValueOf(&ic).Elem().FieldByName("NullsFirst"); f.IsValid() && f.Kind() == reflect.Bool {
+				it = cat(it, g.kw("NULLS", "FIRST"))
+				f.SetBool(true)
+			}
 		}
 		cols = append(cols, it)
 		s.Columns = append(s.Columns, ic)
@@ -232,6 +247,10 @@ func (g *G) CreateIndex() ([]Tok, *ast.CreateIndexStatement) {
 func (g *G) viewQuery() ([]Tok, ast.Statement) {
 	g.ForceFrom = true
 	defer func() { g.ForceFrom = false }()
+	if g.F.DDLExtras && g.chance(20, "viewwith") {
+		g.use("view_over_with")
+		return g.Query(false) // may start with WITH
+	}
 	return g.setOpOrSelect(true)
 }
 
@@ -410,12 +429,28 @@ func (g *G) Merge() ([]Tok, *ast.MergeStatement) {
 	at, an := alias("targetalias")
 	t = cat(t, at)
 	s.TargetAlias = an
-	src := g.tableName()
-	s.SourceTable = ast.TableReference{Name: src.name}
-	t = cat(t, g.kw("USING"), nameToks(src))
-	bt, bn := alias("sourcealias")
-	t = cat(t, bt)
-	s.SourceAlias = bn
+	if g.F.DDLExtras && g.chance(25, "mergesubquery") {
+		g.use("merge_subquery_source")
+		g.ForceFrom = true
+		qt, qn := g.Select(true, true)
+		g.ForceFrom = false
+		s.SourceTable = ast.TableReference{Subquery: qn}
+		a := g.pick(aliasPool, "sourcealiasname")
+		g.Names.Aliases[a.name] = true
+		t = cat(t, g.kw("USING"), sym("("), qt, sym(")"))
+		if g.chance(50, "subqueryas") {
+			t = cat(t, g.kw("AS"))
+		}
+		t = cat(t, sym(a.src))
+		s.SourceAlias = a.name
+	} else {
+		src := g.tableName()
+		s.SourceTable = ast.TableReference{Name: src.name}
+		t = cat(t, g.kw("USING"), nameToks(src))
+		bt, bn := alias("sourcealias")
+		t = cat(t, bt)
+		s.SourceAlias = bn
+	}
 	on := g.at(g.Bool(), POr)
 	t = cat(t, g.kw("ON"), on.T)
 	s.OnCondition = on.N
